@@ -27,7 +27,7 @@ class C18(Profile):
     owns_registries = True
     tiers = {'quick': 1500, 'thorough': 120000}
     wall_cap = {'quick': 1200, 'thorough': 6 * 3600}
-    probes = ['relationship_versions_differ_in_direction', 'filter_attached_through_environment', 'bare_composite_after_environment_filter', 'newest_on_last_member', 'newest_on_first_member', 'same_version_on_two_members',
+    probes = ['refused_add_among_the_adds', 'relationship_versions_differ_in_direction', 'filter_attached_through_environment', 'bare_composite_after_environment_filter', 'newest_on_last_member', 'newest_on_first_member', 'same_version_on_two_members',
               'relationship_and_endpoint_on_different_members', 'nested_composite', 'self_loop', 'detached_member_excluded',
               'composite_filter_attached', 'related_to_nonempty', 'creator_found', 'creator_missing', 'env_facade',
               'navigation_by_id_string', 'relationships_nonempty', 'source_only', 'target_only', 'static_memory_source', 'dict_kept_versions_federated', 'nested_composite_with_own_filter']
@@ -106,6 +106,10 @@ class C18(Profile):
                         ops.append({'op': 'add', 'member': m, 'k': k, 'j': j, 'as': rng.choice(['obj', 'dict'])})
             if not placed:
                 ops.append({'op': 'add', 'member': rng.choice(addable), 'k': k, 'j': j, 'as': 'obj'})
+        if rng.random() < 0.35 and addable:
+            # an add that is REFUSED (invalid content) somewhere among the adds: what is added afterwards must be found all the same
+            for _ in range(rng.choice([1, 1, 2])):
+                ops.append({'op': 'bad_add', 'member': rng.choice(addable), 'what': rng.randrange(6)})
         rng.shuffle(ops)
         cfg['static'] = static
         reads = []
@@ -198,6 +202,17 @@ class C18(Profile):
             kind = op['op']
             if kind == 'add':
                 self.op_add(sw, world, op)
+            elif kind == 'bad_add':
+                m = op['member'] % len(self.members)
+                if sw.cfg['members'][m] != 'memsrc':
+                    bad = {'type': 'identity', 'spec_version': '2.1', 'id': 'identity--not-a-uuid', 'name': 'refused',
+                           'created': '2017-01-01T00:00:00.000Z', 'modified': '2017-01-01T00:00:00.000Z'}
+                    arg = [bad, [bad], {'type': 'bundle', 'id': C.mkid('bundle', i), 'objects': [bad]}, dict(bad, id=C.mkid('identity', 999000 + i), created='yesterday'),
+                           dict(bad, type='indicator', id=C.mkid('indicator', 999000 + i)), 12345][op['what'] % 6]
+                    out = call(self.members[m].add, arg)
+                    world.log(op='bad_add', m=m, what=op['what'] % 6, outcome=out.tag)
+                    if not out.ok:
+                        world.probe('refused_add_among_the_adds')
             elif kind == 'detach':
                 m = op['member'] % len(self.members)
                 self.pc.remove_data_source(self.source_of(m).id)
